@@ -61,7 +61,20 @@ def gen_consts():
     except Exception as e:  # pragma: no cover
         note = "compiled constants unavailable (%r); constants taken from the source text\n" % (e,)
     rc, out = sh([sys.executable, os.path.join(VERIF, "tools", "gen_consts.py"), "--compiled", compiled], timeout=120)
-    return rc == 0, note + out
+    # part 2: the complete behaviour of the finite-domain functions (Gen/Tables.v; Proofs/TableProofs.v re-proves model = table)
+    rc2, out2 = 0, ""
+    try:
+        if okh:
+            tables = os.path.join(CACHE, "tables_compiled.txt")
+            rct, outt = sh([exe, "--tables"], timeout=120)
+            if rct == 0 and outt.startswith("BUNDLEBITS"):
+                open(tables, "w").write(outt)
+                rc2, out2 = sh([sys.executable, os.path.join(VERIF, "tools", "gen_tables.py"), tables], timeout=120)
+            else:
+                rc2, out2 = 1, "harness --tables failed (rc %d): %s\n" % (rct, outt[-300:])
+    except Exception as e:  # pragma: no cover
+        rc2, out2 = 1, "tables unavailable (%r)\n" % (e,)
+    return rc == 0 and rc2 == 0, note + out + out2
 
 
 def coq_makefile():
